@@ -72,13 +72,10 @@ def sequences(max_len, types=None):
 
 
 def needs_space(a, b):
-    """two adjacent token texts that the lexer would glue together or read differently"""
-    if a in WORDLIKE and b in WORDLIKE:
-        return True
-    if a in WORDLIKE and b in ("REGEX",):
-        return True       # '/' may continue a term
-    if a == "REGEX" and b in WORDLIKE:
-        return False
+    """two adjacent tokens that the lexer would glue together without a blank: a term-like token absorbs every
+    following character except blanks and : ^ ~ ( ) { } [ ] \\"""
+    if a in WORDLIKE:
+        return b not in ("COLUMN", "BOOST", "APPROX", "LPAREN", "RPAREN", "LBRACKET", "RBRACKET")
     return False
 
 
